@@ -1,3 +1,5 @@
+import NrDaemon.Props.Reviewed
+import NrDaemon.Gen.Skeleton
 import NrDaemon.Model.Proc
 import NrDaemon.Gen.SwapTable
 import NrDaemon.Lemmas.Ledger
@@ -195,3 +197,15 @@ example :
     let c3 : Contrib := (("a", ""), { forced := false, d := ⟨1, 1, 1, 1, 1, 1⟩ }, 3)
     let s := (GM.init (mtCont 1 5)).run (mtCont 1 5) [.offer c1, .offer c2, .harvest, .offer c3, .retry 0, .harvest, .ack 0]
     s.acked.map (·.2.2) = [3, 1] ∧ s.offered.length = 3 := by decide
+
+
+/-! ## Ties to the current source: the functions transcribed by the model have not changed since they were reviewed (`Props/Reviewed.lean`) -/
+
+/-- **C01 (tie).**  `harvestAll`: the combined harvest sends each container of the detached harvest once. -/
+theorem C01_harvest_all_source_tied : Gen.Skeleton.harvestAll = Reviewed.harvestAll := rfl
+
+/-- **C01 (tie).**  `harvestByType`: each branch saves the containers, installs fresh ones and hands the saved ones to exactly one request. -/
+theorem C01_harvest_by_type_source_tied : Gen.Skeleton.harvestByType = Reviewed.harvestByType := rfl
+
+/-- **C01 (tie).**  `eventsSplit`: a split payload is two independent reservoirs that partition the events. -/
+theorem C01_split_source_tied : Gen.Skeleton.eventsSplit = Reviewed.eventsSplit := rfl
